@@ -6,7 +6,11 @@ unchanged"): the clean-up union's fill rule / ReverseSolution / output target ta
 the sign of the group delta and the definition of a reversed group; plus the per-group state independence of C12.
 """
 from ..astq import AstDB
+from ..astq import walk
 from ..engines import e12_plumbing as e12
+from ..engines import e2_state as e2
+from ..extract import AnalysisBroken
+from .c12 import offset_table
 
 LEVEL = "other"
 
@@ -16,12 +20,24 @@ def run(chk):
     chk.configs = cfgs
     chk.rule("OFFSET.cleanup", "clean-up union: Union with Negative iff paths reversed else Positive, into the tree iff requested, "
              "ReverseSolution(reverse_solution_ != paths_reversed), PreserveCollinear(preserve_collinear_) - all 16 cells")
+    chk.rule("LOOP", "nothing written while offsetting one group is read while offsetting the next (several groups in one ClipperOffset)")
     chk.rule("OFFSET.sign", "|delta| < 0.5 copies the inputs; group_delta_ = -delta iff a Polygon group is reversed, |delta| for open paths; "
              "a group is reversed iff its lowest path has negative area")
     for cfg in cfgs:
         db = AstDB(cfg)
         e12.offset_cleanup_table(db, chk, cfg)
         e12.offset_sign_rules(db, chk, cfg)
+        # groups are offset independently of each other (several groups in one ClipperOffset)
+        eng = e2.E2(db, chk, cfg, ["ClipperOffset"])
+        OFF, why = offset_table(db)
+        e2.check_classification(eng, OFF, chk, "ClipperOffset")
+        ei = db.one("ClipperOffset::ExecuteInternal")
+        gl = e2.find_loops(ei, lambda l: "groups_" in e2.loop_header_text(l) and any(
+            x.get("kind") == "MemberExpr" and x.get("name") == "DoGroupOffset" for x in walk(l)))
+        if len(gl) != 1:
+            raise AnalysisBroken("group loop of ClipperOffset::ExecuteInternal not found")
+        e2.rule_loop(eng, chk, cfg, ei, gl[0], OFF, [{"deltaCallback64_": False}], "group loop of ClipperOffset::ExecuteInternal",
+                     extra_allow={"norms": "only handed to a delta callback (reported under C12)"})
     chk.floor("OFFSET.cleanup", 16 * len(cfgs))
     chk.floor("OFFSET.sign", 40 * len(cfgs))
     chk.explanation = (
